@@ -415,9 +415,20 @@ def misc(op, version):
     return h
 
 
+def batch_pair(creator):
+    """[creating operation, ID-less follower(, ID-less GetAttributes)] through the real batch loop."""
+    from harness import c08
+    return c08.placeholder(creator, oracle="c13")
+
+
 def conditions(tier):
     thorough = tier == "thorough"
     out = []
+    from harness import c08 as _c08
+    for creator in _c08.CREATORS:
+        out.append(Cond("batch-%s" % creator, "batch_pair", dict(creator=creator),
+                        bounds="batch [%s, ID-less follower among %s, optional ID-less GetAttributes]"
+                               % (creator, _c08.FOLLOWERS), timeout=600, part="batch"))
     kinds = stubs.KINDS if thorough else ["SymmetricKey", "OpaqueObject", "X509Certificate"]
     versions = stubs.VERSIONS if thorough else [(1, 2)]
     for op in ("GET", "GET_ATTRIBUTES", "GET_ATTRIBUTE_LIST", "ACTIVATE", "REVOKE", "DESTROY"):
